@@ -377,6 +377,15 @@ def r5(ctx):
         st = [s_ for t, s_ in stores_in(sn) if is_self_attr(t, "previous_reported_value")]
         base = [x for x in calls_in(sn) if norm(x.func) == "COVDetection.send_cov_notifications"]
         ok = len(st) == 1 and norm(st[0].value) == "self.presentValue" and len(base) == 1
+        # ... on every path, also for a notification that goes to one subscriber only (the initial one, a renewal): whoever
+        # is told a value is told the reference the next change is measured against
+        for p_ in enumerate_paths(sn):
+            if p_.term == "raise":
+                continue
+            seq = [("store" if isinstance(nd, ast.Assign) and any(is_self_attr(t_, "previous_reported_value") for t_ in nd.targets) else "send")
+                   for nd in path_nodes(p_) if (isinstance(nd, ast.Assign) and any(is_self_attr(t_, "previous_reported_value") for t_ in nd.targets))
+                   or (isinstance(nd, ast.Call) and norm(nd.func) == "COVDetection.send_cov_notifications")]
+            ok = ok and seq == ["store", "send"]
     ctx.check("COVIncrementCriteria.send_cov_notifications:remembers-reported", ok, where(mi, sn or ic.node), "each notification makes the reported value the new reference for the increment")
     # the notifier
     d = prog.cls(MOD, "COVDetection")
